@@ -123,3 +123,5 @@ func optStr(p *string) string {
 	}
 	return *p
 }
+
+func b64(b []byte) string { return base64.StdEncoding.EncodeToString(b) }
